@@ -15,7 +15,7 @@ from decimal import Decimal, localcontext
 
 import pandas as pd
 
-from ..sim import op, amount, HarnessError, AMOUNT_RESOLVERS
+from ..sim import op, amount, HarnessError, AMOUNT_RESOLVERS, OPS
 from ..canon import D
 from ..ref import frozen_value as FV
 from . import uni as U
@@ -96,6 +96,18 @@ def _b_swap_to(sim, m, a):
         sim.broker.swap_by_to(ft, tt, amt, sim.prices_now(), rate)
         return _swap_result(sim, n0)
 
+    return call
+
+
+@op("fz.aave_borrow")
+def _aave_borrow_nonneg(sim, m, a):
+    """aave.borrow, except that a request whose resolved amount is negative is not issued (k x get_max_borrow_amount is negative
+    for an account beyond its LTV): negative amounts are outside C03's workload (they belong to C04's rejection catalogue)."""
+    call = OPS["aave.borrow"](sim, m, a)
+    lc = getattr(sim, "last_call", None) or {}
+    if call is not None and lc.get("amount") is not None and lc["amount"] < 0:
+        sim.count("probe:negative_amount_not_requested")
+        return None
     return call
 
 
@@ -198,7 +210,7 @@ def gen_world(rw, tier="quick"):
         frozen_row = 60 * hours
     else:
         if has_drb:
-            frozen_row = rw.choice([0, 60, 60, warm if warm else 7])
+            frozen_row = rw.choice([0, 0, 60, 60, 60, 60, 60, warm if warm else 7])
         else:
             frozen_row = warm
         n = frozen_row + 1 + rw.choice([0, 1, 2])
@@ -422,7 +434,7 @@ def _aave_ops(rp, mw):
     if k == "borrow":
         r = rp.random()
         amt = None if r < 0.1 else ({"f": "helper_max_borrow", "x": pick_x(rp)} if r < 0.8 else {"abs": rp.choice(["0", "0.001", "1", "1000000"])})
-        return {"op": "aave.borrow", "m": name, "a": {"token": t, "amount": amt}}
+        return {"op": "fz.aave_borrow", "m": name, "a": {"token": t, "amount": amt}}
     if k == "repay":
         r = rp.random()
         amt = None if r < 0.15 else {"f": "debt", "x": pick_x(rp)}
@@ -485,12 +497,12 @@ def _drb_trade(rp, tok, is_buy, n_ins):
     r = rp.random()
     if is_buy:
         a["inst"] = {"i": rp.randint(0, n_ins - 1)}
-        if r < 0.4:
+        if r < 0.55:
             a["amount"] = {"abs": rp.choice(small)}
-        elif r < 0.6:
-            a["amount"] = {"level": j, "x": rp.choice(["1", "0.5", "0.3", "1.5"])}
+        elif r < 0.72:
+            a["amount"] = {"level": j, "x": rp.choice(["1", "0.5", "0.3", "0.1", "1.5"])}
         elif r < 0.92:
-            a["amount"] = {"depth": rp.choice(["0.02", "0.05", "0.1", "0.3", "0.6", "1"])}
+            a["amount"] = {"depth": rp.choice(["0.01", "0.02", "0.05", "0.1", "0.3", "1"])}
         else:
             a["amount"] = rp.choice([{"depth": "1.2"}, {"depth": "100"}, {"abs": "0.01"}, {"abs": "0"}])
     else:
@@ -628,7 +640,7 @@ def gen_program(rp, world, info):
                     emit({"op": "aave.supply", "m": name, "a": {"token": t2, "amount": {"f": "wallet", "x": "0.2"}, "collateral": bool(mw["risk"][t2]["collateral"]) and rp.random() < 0.7}}, s1)
                 if rp.random() < 0.8 and bors:
                     s2 = (max(s1[0], 0), "on_bar") if s1[0] < fbar else (fbar, "before_bar")
-                    emit({"op": "aave.borrow", "m": name, "a": {"token": rp.choice(bors), "amount": {"f": "helper_max_borrow", "x": rp.choice(["0.1", "0.3", "0.6", "0.9"])}}}, s2)
+                    emit({"op": "fz.aave_borrow", "m": name, "a": {"token": rp.choice(bors), "amount": {"f": "helper_max_borrow", "x": rp.choice(["0.1", "0.3", "0.6", "0.9"])}}}, s2)
         elif kind == "squeeth":
             pool = mw["pool"] if isinstance(mw["pool"], str) else mw["pool"]["name"]
             for j in range(rp.choice([0, 1, 1, 2])):
@@ -649,8 +661,8 @@ def gen_program(rp, world, info):
             open_slots = [(-1, "initialize"), (0, "before_bar")] + ([(fbar, "before_bar")] if frow % 60 == 0 else [])
             if rp.random() < 0.9:
                 emit({"op": "deribit.deposit", "m": name, "a": {"amount": {"f": f"wallet:{tok}", "x": rp.choice(["0.3", "0.5", "0.9"])}}}, rp.choice(open_slots))
-                for _ in range(rp.choice([0, 1, 2, 3])):
-                    emit({"op": "deribit.buy", "m": name, "a": {"inst": {"i": rp.randint(0, 5)}, "amount": rp.choice([{"abs": "2"}, {"abs": "5"}, {"depth": "0.2"}, {"level": 0, "x": "1"}])}},
+                for _ in range(rp.choice([0, 1, 2, 3, 4])):
+                    emit({"op": "deribit.buy", "m": name, "a": {"inst": {"i": rp.randint(0, 5)}, "amount": rp.choice([{"abs": "2"}, {"abs": "5"}, {"abs": "1"}, {"depth": "0.05"}, {"level": 0, "x": "0.5"}])}},
                          rp.choice(open_slots[1:]))
         elif kind == "gmx1":
             for _ in range(rp.choice([0, 1, 1, 2])):
